@@ -3,7 +3,7 @@
 (* Events: reset{sc}  stage{name}*  done{status, allow, ap, ran, iran, msgs,   *)
 (*         code, dl, proc, stype, problems}                                    *)
 EXTENDS Serve, TraceBase
-Blank == [kind |-> "unary", method |-> "POST", major |-> 2, ctype |-> "application/proto", codecs |-> <<>>,
+Blank == [kind |-> "unary", method |-> "POST", major |-> 2, minor |-> 0, ctype |-> "application/proto", codecs |-> <<>>,
           enc |-> "none", theader |-> "none", timeout |-> <<>>, body |-> "good", limit |-> 0]
 TraceInit == l = 1 /\ failed = FALSE /\ InitWith(Blank)
 TReset == Ev("reset") /\ ResetTo(Cur.sc) /\ Consume /\ failed' = FALSE
